@@ -59,7 +59,7 @@ long maxsize(span<const value_store> sl, const struct type_traits *traits)
 {
 	const value_store *val = sl.begin();
 	long len = -1;
-	for (size_t i = 0, max = sl.size(); i < max; ++i) {
+	for (size_t i = 0, max = sl.size(); i < max; ++i, ++val) {
 		if (traits) {
 			const array::content *d = val->data();
 			if (!d || (traits != d->content_traits())) {
